@@ -115,6 +115,134 @@ def boundary_cases():
     return out
 
 
+def catalogue_cases():
+    """every rule of the catalogue once in its simplest form (deterministic, independent of the
+    seed); the random mutants then vary position, depth and file"""
+    out = []
+
+    def add(files, code, node=None, rule="", file=None, trad=False):
+        out.append(dict(files=files, code=code, node=node, rule="catalogue: " + rule,
+                        file=file or next(iter(files)), trad=trad))
+
+    def E(name, *members, n=3):
+        return ["enum", None, name, ["uint", n], [["efield", None, m, i] for i, m in enumerate(members)]]
+
+    def AL(name, t):
+        return ["alias", None, name, t]
+
+    def C(name, v):
+        return ["const", None, name, ["expr", ["int", v]] if isinstance(v, int) else v]
+
+    u3 = S(["uint", 3])
+    ref = lambda *p: S(["ref", list(p)])          # noqa: E731
+    # --- names unique per scope: every kind as the LATER duplicate
+    for mk, what in ((lambda: M("Dd"), "message"), (lambda: E("Dd", "ZA"), "enum"), (lambda: AL("Dd", u3), "alias"),
+                     (lambda: C("Dd", 1), "constant")):
+        for mk0, what0 in ((lambda: M("Dd"), "message"), (lambda: C("Dd", 2), "constant")):
+            later = mk()
+            add(P(mk0(), later), 4, later, f"{what} after a {what0} of the same name")
+    f2 = fld(u3, "a", 2)
+    add(P(M("Mm", fld(u3, "a", 1), f2)), 4, f2, "two fields of one name")
+    inner = M("a")
+    add(P(M("Mm", fld(u3, "a", 1), inner)), 4, inner, "nested message named like a field")
+    f2 = fld(u3, "Inn", 2)
+    add(P(M("Mm", E("Inn", "ZA"), f2)), 4, f2, "field named like a nested enum")
+    m2 = ["efield", None, "ZA", 1]
+    add(P(["enum", None, "Ee", ["uint", 3], [["efield", None, "ZA", 0], m2]]), 4, m2, "two enum members of one name")
+    lib = {"zl.bitproto": [["proto", None, "zl"], M("Kk", fld(u3))]}
+    d = M("zl")
+    f = P(["import", None, None, "zl.bitproto"], d); f.update(lib)
+    add(f, 4, d, "definition named like an import")
+    imp = ["import", None, None, "zl.bitproto"]
+    f = P(M("zl"), imp); f.update(lib)
+    add(f, 4, imp, "import named like a definition")
+    imp2 = ["import", None, "zl", "zk.bitproto"]
+    f = P(["import", None, None, "zl.bitproto"], imp2); f.update(lib); f["zk.bitproto"] = [["proto", None, "zk"]]
+    add(f, 4, imp2, "two imports under one name")
+    o2 = ["option", None, "max_bytes", ["lit", ["i", 9]]]
+    add(P(M("Mm", ["option", None, "max_bytes", ["lit", ["i", 8]]], o2)), 4, o2, "option given twice")
+    f2 = fld(u3, "b", 1)
+    add(P(M("Mm", fld(u3, "a", 1), f2)), 16, f2, "duplicate field number")
+    m2 = ["efield", None, "ZB", 0]
+    add(P(["enum", None, "Ee", ["uint", 3], [["efield", None, "ZA", 0], m2]]), 13, m2, "duplicate enum value")
+    # --- aliases name only unnamed types
+    for mk, what in ((lambda: M("Tt"), "message"), (lambda: E("Tt", "ZA"), "enum"), (lambda: AL("Tt", u3), "alias")):
+        a = AL("Uu", ref("Tt"))
+        add(P(mk(), a), 14, a, f"alias of a {what}")
+    add(P(AL("Tt", A(["uint", 3], 2)), AL("Uu", A(["ref", ["Tt"]], 2)), M("Mm", fld(ref("Uu")))), 0, None,
+        "array of array through an alias is valid")
+    # --- nothing declared in a scope that forbids it
+    for it, code, what in ((AL("Zz", u3), 20, "alias"), (C("Zz", 1), 21, "constant"), (["proto", None, "zz"], 23, "proto")):
+        add(P(M("Mm", fld(u3), it)), code, it, f"{what} inside a message")
+    for it, code, what in ((AL("Zz", u3), 24, "alias"), (C("Zz", 1), 25, "constant"),
+                           (["option", None, "max_bytes", ["lit", ["i", 1]]], 27, "option"), (E("Zz"), 28, "enum"),
+                           (M("Zz"), 29, "message"), (fld(u3, "zz", 1), 30, "message field"), (["proto", None, "zz"], 23, "proto")):
+        add(P(["enum", None, "Ee", ["uint", 3], [["efield", None, "ZA", 0], it]]), code, it, f"{what} inside an enum")
+    for it, what in ((fld(u3, "zz", 1), "field at file level"), (["efield", None, "ZA", 1], "enum member at file level")):
+        add(P(M("Mm"), it), 34, it, what)
+    it = ["efield", None, "ZA", 1]
+    add(P(M("Mm", fld(u3), it)), 34, it, "enum member inside a message")
+    for b in (["int", 8], ["bool"], ["byte"], ["ref", ["Tt"]]):
+        e = ["enum", None, "Ee", b, []]
+        add(P(AL("Tt", u3), e), 34, e, f"enum over {b[0]}")
+    # --- options
+    for it, code, what in ((["option", None, "zzz", ["lit", ["i", 1]]], 17, "unknown option"),
+                           (["option", None, "max_bytes", ["lit", ["i", 1]]], 17, "message option at file level"),
+                           (["option", None, "c.name_prefix", ["lit", ["i", 1]]], 18, "string option given an integer"),
+                           (["option", None, "c.struct_packing_alignment", ["lit", ["i", 9]]], 18, "alignment out of range"),
+                           (["option", None, "c.struct_packing_alignment", ["lit", ["b", True]]], 18, "integer option given a boolean")):
+        add(P(it, M("Mm")), code, it, what)
+    for it, code, what in ((["option", None, "zzz", ["lit", ["i", 1]]], 17, "unknown option in a message"),
+                           (["option", None, "c.name_prefix", ["lit", ["s", "p"]]], 17, "file option inside a message"),
+                           (["option", None, "max_bytes", ["lit", ["s", "8"]]], 18, "max_bytes given a string"),
+                           (["option", None, "max_bytes", ["ref", ["NEG"]]], 18, "max_bytes negative")):
+        add(P(C("NEG", ["expr", ["sub", ["int", 1], ["int", 2]]]), M("Mm", fld(u3), it)), code, it, what)
+    # --- references: declared earlier, right kind
+    for t, code, what in ((ref("Nope"), 9, "undefined type"), (ref("Later"), 9, "type defined later"),
+                          (ref("Mm"), 9, "message used inside itself"), (ref("KK"), 10, "constant used as a type"),
+                          (ref("Oo", "In"), 0, "nested type through its path"), (ref("In"), 9, "nested type without its path"),
+                          (ref("Tt", "x"), 9, "path continued past an alias"), (ref("Ee", "ZA", "q"), 9, "path continued past an enum member"),
+                          (ref("Ee", "ZA"), 10, "enum member used as a type"), (ref("Oo", "f"), 10, "message field used as a type"),
+                          (A(["ref", ["Ee"]], ["NOPE"]), 7, "undefined constant as capacity"),
+                          (A(["ref", ["Ee"]], ["BB"]), 3, "boolean constant as capacity"),
+                          (A(["ref", ["Ee"]], ["Ee"]), 8, "type used as capacity")):
+        f = fld(t)
+        add(P(C("KK", 3), C("BB", ["bool", True]), AL("Tt", u3), E("Ee", "ZA"), M("Oo", M("In", fld(u3)), fld(u3, "f", 1)),
+              M("Mm", f), M("Later")), code, None if code == 0 else f, what)
+    for v, code, what in ((["ref", ["Ee"]], 8, "type used as a constant"), (["ref", ["NOPE"]], 7, "undefined constant"),
+                          (["expr", ["add", ["ref", ["BB"]], ["int", 1]]], 33, "boolean constant in arithmetic"),
+                          (["expr", ["mul", ["int", 2], ["ref", ["SS"]]]], 33, "string constant in arithmetic"),
+                          (["ref", ["BB"]], 0, "boolean constant copied"), (["ref", ["Ee", "ZA"]], 8, "enum member as a constant")):
+        c = ["const", None, "ZK", v]
+        add(P(C("BB", ["bool", True]), C("SS", ["str", "s"]), E("Ee", "ZA"), c), code, None if code == 0 else c, what)
+    # --- imports
+    imp = ["import", None, None, "rootp.bitproto"]
+    add(P(imp), 6, imp, "import cycle of length 1")
+    imp = ["import", None, None, "rootp.bitproto"]
+    f = P(["import", None, None, "zl.bitproto"]); f["zl.bitproto"] = [["proto", None, "zl"], imp]
+    add(f, 6, imp, "import cycle of length 2", file="zl.bitproto")
+    imp2 = ["import", None, "again", "zl.bitproto"]
+    f = P(["import", None, None, "zl.bitproto"], imp2); f.update(lib)
+    add(f, 5, imp2, "the same file imported twice")
+    add(P(["import", None, None, "zmissing.bitproto"]), 35, None, "missing file", file="zmissing.bitproto")
+    fup = fld(ref("Up"))
+    f = P(E("Up", "ZA"), ["import", None, None, "zl.bitproto"]); f["zl.bitproto"] = [["proto", None, "zl"], M("Kk", fup)]
+    add(f, 9, fup, "definition of the importing file used in the imported file", file="zl.bitproto")
+    add({"rootp.bitproto": [M("Mm")]}, 31, None, "missing proto statement")
+    f = P(["import", None, None, "zl.bitproto"]); f["zl.bitproto"] = [M("Kk")]
+    add(f, 31, None, "missing proto statement in an imported file", file="zl.bitproto")
+    # --- traditional mode
+    m = M("Mm", fld(u3), ext=True)
+    add(P(m), 32, m, "extensible message in traditional mode", trad=True)
+    fa = fld(A(["uint", 3], 2, True))
+    add(P(M("Mm", fa)), 32, fa, "extensible array in traditional mode", trad=True)
+    m = M("Kk", fld(u3), ext=True)
+    f = P(["import", None, None, "zl.bitproto"]); f["zl.bitproto"] = [["proto", None, "zl"], m]
+    add(f, 32, m, "extensible message of an imported file in traditional mode", file="zl.bitproto", trad=True)
+    add(P(M("Mm", fld(u3))), 0, None, "traditional schema in traditional mode", trad=True)
+    return out
+
+
 def in_known_class_cases():
     """inside the regions of the listed findings (separate small stream)"""
     out = []
@@ -172,6 +300,7 @@ def run(ck):
     for kf in PENDING_KNOWN:
         if not any(k.get("key") == kf["key"] for k in ck.known):
             ck.known.append(kf)
+    fs.ensure_model_translation()
     ck.try_prove("C08.v", model_vo=("theories/Front.vo", "theories/Spec.vo"))
 
     specs = []
@@ -182,6 +311,9 @@ def run(ck):
     n_corpus = len(specs)
     for b in boundary_cases():
         b["origin"] = "boundary:" + b["rule"]
+        specs.append(b)
+    for b in catalogue_cases():
+        b["origin"] = b["rule"]
         specs.append(b)
     n_boundary = len(specs) - n_corpus
     for k in in_known_class_cases():
